@@ -284,14 +284,15 @@ def single_reconfiguration_table(ctx, nd, rng):
     """the systematic part of the reconfiguration histories: call, change exactly one of (method, n, order), call again at the same
     point — for every ordered pair of neighbouring configurations of a small grid (real-step methods x n 1, 2 x order 2, 3, 4, and
     complex / multicomplex x order), the second call against a fresh interpreter"""
-    grid = [(m, n, o) for m in REAL for n in (1, 2) for o in (2, 3, 4)] + [(m, n, o) for m in ('complex', 'multicomplex') for n in (1, 2) for o in (2, 4)]
+    # n = 0 (the function value itself) is a configuration like any other: a visit there must leave nothing behind
+    grid = [(m, n, o) for m in REAL for n in (0, 1, 2, 4) for o in (2, 3, 4)] + [(m, n, o) for m in ('complex', 'multicomplex') for n in (0, 1, 2) for o in (2, 4)]
     pairs = []
     for a in grid:
         for b in grid:
             if a != b and sum(x != y for x, y in zip(a, b)) == 1 and (a[0] in REAL) == (b[0] in REAL):
                 pairs.append((a, b))
     if not ctx.thorough:
-        pairs = rng.sample(pairs, 60)
+        pairs = rng.sample(pairs, 90)
     requests, results = [], []
     for a, b in pairs:
         fname = rng.choice(list(FUNCS))
